@@ -665,6 +665,11 @@ def run(rep, tier):
         m9 = _c09.clause_a(f9, rep)
         _c09.clause_bc(f9, rep, m9)
         _c09.clause_de(f9, rep, san)
+    # the digit-table / digit-character range rules of the double formatter are decided together with the evaluation of
+    # the formatting stage on the current source (E5.format): a range proof that cannot be rebuilt for a new spelling
+    # of the branches is a note, not a verdict
+    for r_ in ('E3.kdigits-index', 'E3.digit-char'):
+        rep.corroborate(r_, 'E5.format', only=lambda v: 'ftoa.h' in (v.get('loc') or ''))
     rep.trust('clang 14 front end', 'std::realloc(p, n) returns a block of n bytes keeping the old contents',
               *['%s write contract: %s' % (k, v['why']) for k, v in WRITER_CONTRACT.items()])
     rep.assumptions += [
